@@ -40,6 +40,10 @@ func runC07(c *Ctx) {
 	R.Rule("C07.R5", "rule tables are append-only (decided by C17.R2, referenced)")
 	R.Assume(TrustGo, "byte-for-byte identity of the serialisation (attribute quoting, entity forms) is x/net/html's Token.String against 'canonical serialisation' and is NOT decided")
 	F := model.FindFields(c.P)
+	R.Rule("C07.R7", "URLs the policy allows are not rejected: with URL checking on, validURL returns false only for a tabled reason — white space outside a data: URL, a parse error, a non-empty scheme not admitted by the scheme table / patterns / custom checks, or a scheme-less URL while relative URLs are off or the re-serialised URL is empty")
+	c03ValidURL(c, F, "C07.R7")
+	R.Rule("C07.R8", "one matcher per property: in the style builders a style rule value that is modified inside a loop is created in that loop, so the default handler chosen for one property is never carried over to the next")
+	freshRulePerIteration(c, "C07.R8")
 	nLoops := 0
 	found := map[string]int{}
 	for _, name := range []string{"(*Policy).sanitizeAttrs", "(*Policy).sanitizeStyles", "(*Policy).validURL", "(*Policy).matchRegex", "(*Policy).allowNoAttrs", "(*Policy).sanitize"} {
